@@ -352,6 +352,41 @@ def run(ctx):
                                   'reference': want[1]}, kf=kf,
                    group=f'arith-cells:{sym}:{an}:{bn}')
 
+    # ---- C2. sign chains: -x, --x, ---x coerce like any arithmetic -----------------
+    utexts, umeta, uinputs = [], [], {}
+    urow = 0
+    for an, a in operands:
+        if not mine():
+            continue
+        for signs in (1, 2, 3, 4):
+            try:
+                v = a
+                for _ in range(signs):
+                    v = ref.neg(v)
+                want = ('value', ref.to_norm(v))
+            except ref.Undecided:
+                continue
+            urow += 1
+            if a is not None:
+                uinputs[f'A{urow}'] = a
+            utexts.append('=' + '-' * signs + f'A{urow}')
+            umeta.append((signs, an, a, want, 'cell'))
+            if a is not None and not isinstance(a, float):
+                utexts.append('=' + '-' * signs + subject.lit(a))
+                umeta.append((signs, an, a, want, 'literal'))
+            if isinstance(a, float):
+                utexts.append('=' + '-' * signs + subject.lit(a))
+                umeta.append((signs, an, a, want, 'literal'))
+    uouts = subject.eval_batch(utexts, uinputs) if utexts else []
+    for (signs, an, a, want, how), text, got in zip(umeta, utexts, uouts):
+        ctx.event('arithmetic_cases')
+        ctx.case(('sign-chain', signs, an, how))
+        if not same(got, want):
+            report(f'{text} with operand {a!r} ({how}) -> {got}, table gives '
+                   f'{want[1]}', {'formula': text, 'operand': repr(a),
+                                  'observed': got, 'reference': want[1]},
+                   group=f'sign-chain:{signs}:{an}:{how}')
+
     # ---- D. function names: case-insensitive, _xlfn. prefix -----------------------
     texts, canon = [], []
     for fname in sorted(F):
@@ -421,6 +456,37 @@ def run(ctx):
                        f'{want}', {'formula': cells[a], 'observed': got,
                                    'expected': want},
                        group='user-function:' + a, monitor='user-functions')
+        # the same name registered again with ANOTHER parameter list: an
+        # evaluator created afterwards uses the new function
+        @xl.register('VERIF_TRIPLE')
+        @xl.validate_args
+        def triple2(x: T.XlNumber, factor: T.XlNumber = 3) -> T.XlNumber:
+            return x * factor
+
+        @xl.register('VERIF_SHOUT')
+        @xl.validate_args
+        def shout2(n_: T.XlNumber, t: T.XlText = 'z') -> T.XlText:
+            return str(t).upper() * int(n_)
+
+        cells2 = {'A1': '2', 'A2': True, 'B1': '=VERIF_TRIPLE(A1,5)',
+                  'B2': '=VERIF_TRIPLE(A2)', 'B3': '=VERIF_TRIPLE(A1,"2")',
+                  'C1': '=VERIF_SHOUT(A1,"ab")', 'C2': '=VERIF_SHOUT("3")'}
+        ev2 = Evaluator(subject.compile_dict(cells2))
+        expect2 = {'B1': ('num', 10.0), 'B2': ('num', 3.0),
+                   'B3': ('num', 4.0), 'C1': ('text', 'ABAB'),
+                   'C2': ('text', 'ZZZ')}
+        for a, want in expect2.items():
+            got = subject.outcome_of(lambda: ev2.evaluate('Sheet1!' + a))
+            ctx.event('user_function_cases')
+            ctx.case(('user-function-reregistered', a))
+            if got != ('value', want):
+                report(f're-registered user function: {cells2[a]} -> {got}, '
+                       f'expected {want}', {'formula': cells2[a],
+                                            'observed': got,
+                                            'expected': want},
+                       group='user-function-rereg:' + a,
+                       monitor='user-functions')
+        xl.FUNCTIONS['VERIF_TRIPLE'] = VERIF_TRIPLE
         for spelled, want in ((2, 6.0), ('2', 6.0), (True, 3.0), (None, 0.0),
                               (numpy.float64(2.5), 7.5), (T.Text('4'), 12.0)):
             got = monitors.call_outcome(F['VERIF_TRIPLE'], spelled)
